@@ -398,8 +398,14 @@ func (w *writeObjectCloser) Close() error {
 		if atomicWriteErr != nil {
 			return toStorageError(errors.Join(atomicWriteErr, os.Remove(w.file.Name())))
 		}
+		if err := verifAtomicClose("closed-temp", w.file.Name(), w.path); err != nil {
+			return err
+		}
 		if err := os.Rename(w.file.Name(), w.path); err != nil {
 			return toStorageError(errors.Join(err, os.Remove(w.file.Name())))
+		}
+		if err := verifAtomicClose("renamed", w.file.Name(), w.path); err != nil {
+			return err
 		}
 	}
 	return err
